@@ -41,7 +41,9 @@ def coq_mop_of(u):
         return "(MUpdate 0 %s)" % coq_prules(u["rules"])
     if u["op"] == "incr":
         return "(MIncr 0 %s)" % coq_prules(u["rules"])
-    return "(MRemove 0 %s)" % coq_list([coq_str(n) for n in u["names"]])
+    if u["op"] == "churn":
+        return "(MRemove 0 %s)" % coq_list([coq_str("ghost")])
+    return "(MRemove 0 %s)" % coq_list([coq_str(n) for n in u.get("_coq_names", u["names"])])
 
 
 def make_scenarios(rng, tier):
@@ -80,6 +82,36 @@ def make_scenarios(rng, tier):
                     sc["_first_kind"] = kind
                     scs.append(sc)
                     sid += 1
+    # executions that start while ANOTHER management call is holding the pool's locks: every instance has run the old version
+    # once, an update to version 2 has returned, then a long removal of names that do not exist runs concurrently with max
+    # executions per round — each of them started after the update returned and must run version 2
+    ghosts = ["ghost%d" % i for i in range(2000)]
+    for (mn, mx) in ([(4, 16)] if tier == "quick" else [(4, 16), (2, 4), (1, 3)]):
+        sc = {"id": sid, "min": mn, "max": mx, "model": 1, "rules": rules_v(1), "steps": []}
+        r0 = sid * 1000
+        first = [r0 + 1 + k for k in range(mx)]
+        for q in first:
+            sc["steps"].append(req_step(q, "Execute", NAMES, hold_at="*"))
+        for q in first:
+            sc["steps"].append({"op": "release", "id": q})
+        for q in first:
+            sc["steps"].append({"op": "wait", "id": q})
+        sc["steps"].append(dict(upd("full", 2)))
+        nxt = r0 + 100
+        for rnd in range(2):
+            # a management call that takes the pool's write locks again and again for a while (removals of names that do not
+            # exist): a request that gets past one acquisition finds the next one pending when it takes its snapshot
+            sc["steps"].append({"op": "churn", "names": ghosts, "wait_ms": 120, "_ver": None, "async": True})
+            batch = []
+            for k in range(3 * mx):
+                nxt += 1
+                batch.append(nxt)
+                sc["steps"].append(req_step(nxt, "Execute", NAMES, hold_at="", wait_ms=-1))
+            for q in batch:
+                sc["steps"].append({"op": "wait", "id": q})
+        sc["_first_kind"] = "full+concurrent-removal"
+        scs.append(sc)
+        sid += 1
     return scs
 
 
@@ -113,7 +145,7 @@ def main(run):
             extra.append((sc["id"], 37))
         # updates with their sequence intervals
         ups = []
-        script_ops = [st for st in sc["steps"] if st["op"] in ("update", "incr", "remove")]
+        script_ops = [st for st in sc["steps"] if st["op"] in ("update", "incr", "remove", "churn")]
         k = 0
         removals = []
         op_terms = []
@@ -121,8 +153,7 @@ def main(run):
             if oo["op"].startswith("inside-"):
                 st = sc["_inside_u"]
             else:
-                st = script_ops[k]
-                k += 1
+                st = sc["steps"][oo["step"]]
             ver = st.get("_ver")
             names = st.get("names") if st["op"] == "remove" else None
             op_terms.append((oo["begin_seq"], "(mkOO %s %s %s %s)" % (coq_mop_of(st), coq_nat(oo["begin_seq"]), coq_nat(oo["end_seq"]), coq_bool(not oo["err"] and not oo.get("panic")))))
@@ -144,11 +175,11 @@ def main(run):
             if r.get("panic") or (r["err"] and "panic" in (r.get("errmsg") or "")):
                 extra.append((sc["id"], 36))
             got = coq_list(["(%s, %s)" % (coq_str(n), coq_z(v // 1000000)) for n, v in sorted(r["result"].items()) if v >= 0])
-            sets.append("(mkES %s %s %s %s %s %s)" % (coq_nat(sc["id"]), coq_nat(r["id"]), coq_shape(steps_by_id[r["id"]], sc["model"]), got, coq_nat(r["begin_seq"]), coq_nat(r["end_seq"])))
+            sets.append("(mkES %s %s %s %s %s %s)" % (coq_nat(sc["id"]), coq_nat(nid(sc["id"], r["id"])), coq_shape(steps_by_id[r["id"]], sc["model"]), got, coq_nat(r["begin_seq"]), coq_nat(r["end_seq"])))
             if sc["_first_kind"] == "incr1":
                 continue        # the version after a one-rule incremental update mixes body tags by design: only the set check applies
             vers = [v // 1000000 for v in r["result"].values() if v >= 0]
-            execs.append("mkEO %s %s %s %s %s" % (coq_nat(sc["id"]), coq_nat(r["id"]), coq_list([coq_nat(v) for v in vers]), coq_nat(r["begin_seq"]), coq_nat(r["end_seq"])))
+            execs.append("mkEO %s %s %s %s %s" % (coq_nat(sc["id"]), coq_nat(nid(sc["id"], r["id"])), coq_list([coq_nat(v) for v in vers]), coq_nat(r["begin_seq"]), coq_nat(r["end_seq"])))
             for (endseq, names, until) in removals:
                 if endseq < r["begin_seq"] and r["end_seq"] < until and any(n in r["result"] for n in names):
                     extra.append((sc["id"], 35))
